@@ -31,6 +31,7 @@ package nodenumaresource
 import (
 	"context"
 	"fmt"
+	"sort"
 	"strings"
 	"testing"
 	"time"
@@ -482,11 +483,57 @@ func (s *c19Sys) judge(r *c19Restart, live c19View, liveAvail c19Avail, where st
 	ctx := func() string {
 		return fmt.Sprintf("delivery: %s\n--- live state ---\n%s--- rebuilt state ---\n%s--- reference (allocator results) ---\n%s", where, live, got, s.refString())
 	}
-	if got.Pods != live.Pods {
-		add("rebuilt-ne-live|pod-allocations", "the recorded pod allocations differ after the restart\n"+ctx())
+	// (1) section by section, one violation class per kind of difference
+	kindOf := map[string]string{}
+	for _, id := range s.ids {
+		k := "pod"
+		if id.spec.Reservation {
+			k = "reservation"
+		}
+		kindOf["uid-"+id.spec.Name] = k
 	}
-	if got.CPUs != live.CPUs {
-		add("rebuilt-ne-live|cpu-refcounts", "the per-CPU reference counts differ after the restart\n"+ctx())
+	direction := func(liveV, gotV string) string {
+		switch {
+		case gotV == "":
+			return "lost"
+		case liveV == "":
+			return "gained"
+		}
+		return "changed"
+	}
+	for uid, lp := range live.Pods {
+		gp, ok := got.Pods[uid]
+		if !ok {
+			add("rebuilt-ne-live|pod-record-missing", "an object recorded by the live scheduler is not recorded after the restart: "+uid+"\n"+ctx())
+			continue
+		}
+		if gp.ident != lp.ident {
+			add("rebuilt-ne-live|pod-record-identity", "uid/namespace/name of the record of "+uid+" differ after the restart\n"+ctx())
+		}
+		if gp.cpus != lp.cpus {
+			add("rebuilt-ne-live|pod-record-cpuset", "the CPU set recorded for "+uid+" differs after the restart\n"+ctx())
+		}
+		if gp.numa != lp.numa {
+			add("rebuilt-ne-live|pod-record-numa-amounts", "the per-NUMA amounts recorded for "+uid+" differ after the restart\n"+ctx())
+		}
+		if gp.excl != lp.excl {
+			add("rebuilt-ne-live|pod-record-exclusive-policy|"+kindOf[uid]+"|"+direction(lp.excl, gp.excl),
+				fmt.Sprintf("the exclusive policy recorded for %s is %q live and %q after the restart\n%s", uid, lp.excl, gp.excl, ctx()))
+		}
+	}
+	for uid := range got.Pods {
+		if _, ok := live.Pods[uid]; !ok {
+			add("rebuilt-ne-live|pod-record-extra", "an object is recorded after the restart that the live scheduler does not record: "+uid+"\n"+ctx())
+		}
+	}
+	for c := -1; c <= cfg.L.N; c++ {
+		if got.CPUs[c] != live.CPUs[c] {
+			add("rebuilt-ne-live|cpu-refcounts", fmt.Sprintf("CPU %d: live %q, after the restart %q\n%s", c, live.CPUs[c], got.CPUs[c], ctx()))
+			break
+		}
+	}
+	if len(got.CPUs) != len(live.CPUs) {
+		add("rebuilt-ne-live|cpu-refcounts", "a different number of CPUs is recorded after the restart\n"+ctx())
 	}
 	if got.Amounts != live.Amounts {
 		add("rebuilt-ne-live|numa-amounts", "the per-NUMA allocated amounts differ after the restart\n"+ctx())
@@ -494,27 +541,36 @@ func (s *c19Sys) judge(r *c19Restart, live c19View, liveAvail c19Avail, where st
 	if got.Status != live.Status {
 		add("rebuilt-ne-live|numa-single-shared-status", "the single/shared NUMA node status differs after the restart\n"+ctx())
 	}
-	if got.Marks != live.Marks {
-		// The exclusive mark of a CPU is overwritten by every pod added to it. For a CPU shared (sharing limit > 1)
-		// by pods asking for DIFFERENT exclusive policies the live mark is the policy of whichever holder was
-		// recorded last -- the allocation order, which is not persisted anywhere, so no rebuild can reproduce it and
-		// the live value itself is not a function of the allocations. Those CPUs are diagnostics; every other CPU
-		// (all holders agree) is judged.
-		lm, gm := c19MarkMap(live.Marks), c19MarkMap(got.Marks)
-		judged := false
-		for c := 0; c < cfg.L.N; c++ {
-			if lm[c] == gm[c] {
+	for c := 0; c < cfg.L.N; c++ {
+		lm, lok := live.Marks[c]
+		gm, gok := got.Marks[c]
+		if lm == gm || !lok || !gok { // presence is judged with the ref counts
+			continue
+		}
+		if s.maxRef() > 1 {
+			// Under a sharing limit > 1 every pod added to a CPU overwrites its exclusive mark and release never
+			// restores it: the live mark is the policy of whichever pod was recorded last, possibly one that is gone
+			// (the allocation ORDER, persisted nowhere). No rebuild can reproduce that and the live value is not a
+			// function of the allocations, so equality is a diagnostic; judged is what a rebuild can guarantee: the
+			// mark after the restart is the policy of one of the current holders.
+			cfg.res.Count("diag_exclusive_mark_differs_under_sharing_limit_2(live_mark_is_last_writer_wins)", 1)
+			if !policies[c][schedulingconfig.CPUExclusivePolicy(gm)] {
+				add("rebuilt-ne-live|cpu-exclusive-mark|not-a-holders-policy", fmt.Sprintf("CPU %d is marked %q after the restart, which no current holder asked for\n%s", c, gm, ctx()))
+			}
+			continue
+		}
+		holder := "unheld-cpu"
+		for _, id := range s.ids {
+			if !id.holds() {
 				continue
 			}
-			if len(policies[c]) > 1 {
-				cfg.res.Count("diag_mark_differs_on_cpu_shared_by_pods_with_different_exclusive_policies", 1)
-				continue
+			for _, x := range id.ref.cpus {
+				if x == c {
+					holder = kindOf["uid-"+id.spec.Name]
+				}
 			}
-			judged = true
 		}
-		if judged {
-			add("rebuilt-ne-live|cpu-exclusive-marks", "the per-CPU exclusive policy marks differ after the restart\n"+ctx())
-		}
+		add("rebuilt-ne-live|cpu-exclusive-mark|"+holder+"|"+direction(lm, gm), fmt.Sprintf("CPU %d is marked %q live and %q after the restart\n%s", c, lm, gm, ctx()))
 	}
 	// corollary against the reference
 	av := c19AvailOf(r.rm, r.tom, cfg.Node)
@@ -541,18 +597,6 @@ func (s *c19Sys) judge(r *c19Restart, live c19View, liveAvail c19Avail, where st
 	if av.str != liveAvail.str {
 		add("available-numa-amounts-differ", fmt.Sprintf("available NUMA amounts live %s, after the restart %s\n%s", liveAvail.str, av.str, ctx()))
 	}
-}
-
-func c19MarkMap(marks string) map[int]string {
-	out := map[int]string{}
-	for _, line := range strings.Split(marks, "\n") {
-		var c int
-		var m string
-		if n, _ := fmt.Sscanf(line, " cpu %d excl=%q", &c, &m); n == 2 {
-			out[c] = "set:" + m
-		}
-	}
-	return out
 }
 
 func (c *c19Cfg) capacity(node int, name string) int64 {
@@ -704,7 +748,7 @@ func c19Configs(thorough bool) []*c19Cfg {
 			Name: "plain-1x2x2x2", L: c19NewLayout(1, 2, 2, 2, false), MemPerNode: "8Gi",
 			Pods: []c19PodSpec{
 				{Name: "a", QoS: "LSR", CPU: "2", Mem: "1Gi", Spec: &extension.ResourceSpec{PreferredCPUBindPolicy: spread, PreferredCPUExclusivePolicy: pcpu}},
-				{Name: "b", QoS: "LSE", CPU: "3", Mem: "2Gi", Spec: &extension.ResourceSpec{RequiredCPUBindPolicy: extension.CPUBindPolicyDefault}},
+				{Name: "b", QoS: "LSE", CPU: "4", Mem: "2Gi", Spec: &extension.ResourceSpec{RequiredCPUBindPolicy: extension.CPUBindPolicyDefault}},
 				{Name: "c", QoS: "LSR", CPU: "2", Mem: "3Gi", Spec: &extension.ResourceSpec{PreferredCPUBindPolicy: full, PreferredCPUExclusivePolicy: numal}, NUMA: single},
 				{Name: "d", QoS: "LS", CPU: "1500m", Mem: "1Gi"},
 			},
@@ -786,7 +830,7 @@ func TestVerifC19Numa(t *testing.T) {
 		}
 		res.Bounds = map[string]any{"topology": cfg.L.Name, "node_labels": cfg.NodeLabels, "max_ref_count": cfg.MaxRef, "reserved_cpus": cfg.ReservedCPUs, "identities": specs}
 		b := &mc.BFS{Res: res, Env: sub, New: func() mc.System { return c19NewSys(cfg, base) }, NumOps: len(cfg.Pods) * c19OpsPerIdent,
-			OpName: cfg.opName, MaxDepth: env.Pick(3, 5), Repeats: 0}
+			OpName: cfg.opName, MaxDepth: env.Pick(5, 7), Repeats: 0}
 		b.Run()
 		if env.Replay == "" {
 			for _, p := range cfg.Pods {
@@ -855,16 +899,32 @@ func c19TopologyOrder(env *mc.Env, base *c19Base, cfgs []*c19Cfg) {
 				res.Evaluations++
 				where := c19SeqString(objs, seq)
 				seen := map[string]bool{}
+				var early []string
+				firstWhat := ""
 				s.judge(r, live, liveAvail, where, func(key, what string) {
-					if topoAt != 0 {
-						key = "object-delivered-before-topology|" + key
-					}
 					if seen[key] {
 						return
 					}
 					seen[key] = true
+					if topoAt != 0 {
+						// one class for everything that goes wrong because an object overtook the topology
+						early = append(early, key)
+						if firstWhat == "" {
+							firstWhat = what
+						}
+						return
+					}
 					res.Violate(mc.Violation{Key: "C19|numa|" + key, What: what, Replay: map[string]any{"configuration": cfg.Name, "bound": s.refString(), "delivery": where}})
 				})
+				if len(early) > 0 {
+					sort.Strings(early)
+					key := "object-delivered-before-topology|other-difference"
+					if seen["rebuilt-ne-live|pod-record-missing"] {
+						key = "object-delivered-before-topology|allocation-not-rebuilt"
+					}
+					res.Violate(mc.Violation{Key: "C19|numa|" + key, What: fmt.Sprintf("an object delivered before the NodeResourceTopology of its node; violated clauses: %v\nfirst: %s", early, firstWhat),
+						Replay: map[string]any{"configuration": cfg.Name, "bound": s.refString(), "delivery": where}})
+				}
 				if topoAt == 0 {
 					res.Count("orders_topology_first", 1)
 				} else {
